@@ -27,6 +27,7 @@ type c19Scenario struct {
 	PauseMax  string `json:"consumer_pause_below,omitempty"`
 	GenLatMax string `json:"delegate_latency_below,omitempty"`
 	CancelAt  string `json:"cancel_at"`
+	CtxAware  bool   `json:"delegate_checks_context,omitempty"` // the delegate refuses to start a pass on a cancelled context (returns ctx.Err())
 }
 
 type c19Pass struct {
@@ -50,6 +51,11 @@ func (d *c19Delegate) GenerateRequests(ctx context.Context, _ *scan.Range) (<-ch
 	simrt.Pre("c19.delegate.call")
 	ps := &c19Pass{idx: len(d.passes), callT: d.run.Now()}
 	d.passes = append(d.passes, ps)
+	if d.sc.CtxAware && ctx.Err() != nil {
+		ps.failed = true
+		simrt.Fault("gen-fail-cancelled")
+		return nil, ctx.Err()
+	}
 	if d.fail[ps.idx] {
 		ps.failed = true
 		simrt.Fault("gen-fail")
@@ -131,6 +137,13 @@ func runC19Lib(t *testing.T, c simrt.Chooser, o Opts) *Out {
 	cancelAt := time.Duration(npassTarget)*interval + p.dur("canceloff", 0, interval)
 	if p.pct("earlycancel", 10) {
 		cancelAt = p.dur("cancelearly", 1, interval)
+	}
+	if p.pct("ctxaware", 35) {
+		// a delegate that looks at the context, and a cancel that lands exactly when a pass is due
+		sc.CtxAware = true
+		if p.pct("boundary", 70) {
+			cancelAt = time.Duration(npassTarget) * interval
+		}
 	}
 	sc.CancelAt = cancelAt.String()
 	out := &Out{Scenario: sc, Stats: map[string]int{}}
@@ -230,6 +243,9 @@ func runC19Lib(t *testing.T, c simrt.Chooser, o Opts) *Out {
 	errReqs := 0
 	for k, rc := range recvs {
 		if rc.err != "" {
+			if rc.cancelled && strings.Contains(rc.err, "context canceled") {
+				continue // the delegate's own refusal of the pass that was due at the cancel
+			}
 			errReqs++
 			if !strings.Contains(rc.err, "pass") {
 				out.violate("C19.foreign-error", sig, "request %d of the stream carries an error nobody injected: %s", k, rc.err)
